@@ -216,6 +216,7 @@ int64_t cmb_objectqueue_get(struct cmb_objectqueue *oqp, void **objectloc)
 {
     /* Waiting since now, also if it takes several rounds at the guard */
     const double waiting_since = cmb_time();
+    uint64_t arrival = 0u;
 
     cmb_assert_release(oqp != NULL);
     cmb_assert_release(objectloc != NULL);
@@ -259,7 +260,8 @@ int64_t cmb_objectqueue_get(struct cmb_objectqueue *oqp, void **objectloc)
         const int64_t sig = cmi_resourceguard_wait_since(&(oqp->front_guard),
                                                          has_content,
                                                          NULL,
-                                                         waiting_since);
+                                                         waiting_since,
+                                                         &arrival);
         if (sig == CMB_PROCESS_SUCCESS) {
             cmb_logger_info(stdout,"Trying again");
         }
@@ -279,6 +281,7 @@ int64_t cmb_objectqueue_put(struct cmb_objectqueue *oqp, void *object)
 {
     /* Waiting since now, also if it takes several rounds at the guard */
     const double waiting_since = cmb_time();
+    uint64_t arrival = 0u;
 
     cmb_assert_release(oqp != NULL);
 
@@ -318,7 +321,8 @@ int64_t cmb_objectqueue_put(struct cmb_objectqueue *oqp, void *object)
         const int64_t sig = cmi_resourceguard_wait_since(&(oqp->rear_guard),
                                                          has_space,
                                                          NULL,
-                                                         waiting_since);
+                                                         waiting_since,
+                                                         &arrival);
         if (sig == CMB_PROCESS_SUCCESS) {
             cmb_logger_info(stdout,"Trying again");
         }
